@@ -112,6 +112,7 @@ fn work(args: &[String]) -> ExitCode {
             fps.extend_from_slice(&v.to_le_bytes());
         }
         agg.merge(&rep.agg);
+        let n_violations = rep.violations.len() as u64;
         for v in rep.violations {
             let key = format!("{}|{}", v.violation.class, v.violation.signature);
             violations.entry(key).and_modify(|e| e.1 += 1).or_insert((v, 1, run));
@@ -128,7 +129,13 @@ fn work(args: &[String]) -> ExitCode {
                 harness_errors.push(format!("run {run}: {e}"));
             }
         }
-        if let Some(d) = rep.digest {
+        {
+            // digest of everything this run observed: compared across worker partitions / OS processes
+            let mut d = rep.digest.unwrap_or(0);
+            for (fp, _) in &rep.fingerprints {
+                d = (d.rotate_left(11) ^ fp).wrapping_mul(0x9E37_79B9_7F4A_7C15);
+            }
+            d ^= n_violations;
             digests.insert(run.to_string(), format!("{d:016x}"));
         }
         if let Some(s) = rep.sample {
